@@ -11,6 +11,11 @@ by-product of Lean's totality.
 
 Modelled, not verified: `compress/zlib` is the abstract pair `Env.deflate`,
 `Env.inflate`; the route dictionary is the pair of finite maps `routes`/`codes`.
+
+Further down: `SetDictionary` with `strings.TrimSpace` (`trimWs`), the window of
+results of one long-lived packet decoder (`decodeShared`), and the Data branch
+of `ClientSession.processPacket` + `SessionsImpl.ProcessMessage` (`sessionData`,
+pomelonet/server/session/session.go, node/client/impls/pomelo/sessionsimpl.go).
 -/
 namespace Cell2v.Codec
 
